@@ -368,7 +368,9 @@ class SymChecker:
         """call library code; raising is a failed clause on this path"""
         r = self.call_any(f, *a, **k)
         if isinstance(r, Raised):
+            self._divzero_call = self.ncalls - 1 if r.type == 'ZeroDivisionError' else None
             self._concrete_fail('call%d:noraise' % self.ncalls, 'raised %s: %s' % (r.type, str(r.exc)[:200]))
+            self._divzero_call = None
             raise PathAbort()
         return r
 
@@ -377,7 +379,9 @@ class SymChecker:
         returns None in that case"""
         r = self.call_any(f, *a, **k)
         if isinstance(r, Raised):
+            self._divzero_call = self.ncalls - 1 if r.type == 'ZeroDivisionError' else None
             self._concrete_fail(name + ':noraise', 'raised %s: %s' % (r.type, str(r.exc)[:200]))
+            self._divzero_call = None
             return None
         return r
 
@@ -595,7 +599,16 @@ class SymChecker:
             return False
         self.job.setdefault('replays', 0)
         self.job['replays'] += 1
-        return clause in res.get('failed', {}) or _base(clause) in {_base(c) for c in res.get('failed', {})}
+        if clause in res.get('failed', {}) or _base(clause) in {_base(c) for c in res.get('failed', {})}:
+            return True
+        k = getattr(self, '_divzero_call', None)
+        if k is not None and k < len(res.get('calls', [])):
+            # an exact division by zero: NumPy arithmetic does not raise but returns inf/nan, which confirms the failure
+            nr = res['calls'][k]
+            vs = nr.get('values') or []
+            if 'raised' in nr or any(isinstance(x, float) and (x != x or x in (float('inf'), float('-inf'))) for x in vs):
+                return True
+        return False
 
     def _prove_bool(self, name, idx, cond):
         t = time.time()
